@@ -33,11 +33,11 @@ func c13Oracle(sp *Spec, x *X, res *mcrt.Result) (string, string) {
 	}
 	var ws []wr
 	for _, c := range x.Calls {
-		if !strings.HasPrefix(c.Op, "write(") {
+		if !strings.HasPrefix(c.Op, "write(") && !strings.HasPrefix(c.Op, "writebuf(") {
 			continue
 		}
 		var text string
-		fmt.Sscanf(c.Op[len("write("):len(c.Op)-1], "%q", &text)
+		fmt.Sscanf(c.Op[strings.Index(c.Op, "(")+1:len(c.Op)-1], "%q", &text)
 		n := strings.Count(out, text)
 		late := c.Inv >= x.WaitStep
 		switch {
@@ -128,6 +128,24 @@ func c13Programs(tier string) []*Spec {
 				out = append(out, sp)
 			}
 		}
+	}
+	// text written when no bar is (any longer) in the container, and a writer that reuses its buffer
+	for _, v := range []string{"nobars", "after-removed", "reused-buffer"} {
+		sp := &Spec{Name: "c13-" + v, Refresh: "auto", Q: -1}
+		switch v {
+		case "nobars":
+			sp.Clients = [][]Op{{{K: "write", S: "solo-alpha\n"}, {K: "write", S: "solo-bravo\n"}}}
+		case "after-removed":
+			sp.Bars = []BarSpec{{Total: 1, Rm: true}}
+			sp.Main = []Op{{K: "add", B: 0}}
+			sp.Clients = [][]Op{{{K: "incr", B: 0, N: 1}, {K: "barwait", B: 0}, {K: "write", S: "left-alpha\n"}, {K: "write", S: "left-bravo\n"}}}
+		case "reused-buffer":
+			sp.Bars = []BarSpec{{Total: 2}}
+			sp.Main = []Op{{K: "add", B: 0}}
+			sp.Clients = [][]Op{completeOps(0, 2), {{K: "writebuf", S: "scratch-alpha-long\n"}, {K: "writebuf", S: "scratch-bravo\n"}, {K: "writebuf", S: "s-charlie\n"}}}
+		}
+		sp.Late = []Op{{K: "write", S: "too-late\n"}}
+		out = append(out, sp)
 	}
 	// manual refresh with a final client refresh after the last write (main refreshes before Wait)
 	sp := &Spec{Name: "c13-manual", Refresh: "manual", Q: -1}
